@@ -114,6 +114,43 @@ theorem empty_block_total (P : Params) (c s : DB) (b : Block) (avgs : TMap)
   simp only
   exact hrw
 
+/-! ### "bad entries are skipped, not fatal" -/
+
+/-- **An entry that does not validate is skipped entirely**: undecodable content, a version or
+    shape `ValidData` refuses, a missing / wrong / foreign signature, a salt outside its window, an
+    amount above int64 — `applyTxEntry` writes nothing and the block goes on. -/
+theorem invalid_entry_is_skipped (P : Params) (h : Nat) (keymr : String) (bo : Nat) (e : TxEntry) (s : DB)
+    (hv : e.validAt P h = false) : applyTxEntry P h keymr bo e s = .ok () s := by
+  unfold applyTxEntry
+  rw [M.bind_run]
+  simp only [M.get_run, hv, Bool.false_and, Bool.false_eq_true, if_false]
+  rfl
+
+/-- … so a transaction-chain entry block in which NOTHING validates (any number of entries, any
+    content) leaves the ledger exactly as it was and never fails the block -/
+theorem all_invalid_entries_are_a_noop (P : Params) (h : Nat) (keymr : String) (es : List TxEntry) (s : DB)
+    (hv : ∀ e ∈ es, e.validAt P h = false) : applyTransactionBlock P h keymr es s = .ok () s := by
+  unfold applyTransactionBlock M.forEachIdx
+  suffices hk : ∀ (k : Nat), M.forEach (es.zipIdx k) (fun p => applyTxEntry P h keymr p.2 p.1) s = .ok () s from hk 0
+  induction es with
+  | nil => intro k; rfl
+  | cons e rest ih =>
+    intro k
+    simp only [List.zipIdx_cons, M.forEach]
+    show (applyTxEntry P h keymr k e >>= fun _ => M.forEach (rest.zipIdx (k + 1)) (fun p => applyTxEntry P h keymr p.2 p.1)) s = .ok () s
+    rw [M.bind_run, invalid_entry_is_skipped P h keymr k e s (hv e List.mem_cons_self)]
+    exact ih (fun e' he' => hv e' (List.mem_cons_of_mem _ he')) (k + 1)
+
+/-- a held batch that no longer validates when its window is processed is given the reject status
+    −2 and does not stop the block -/
+theorem invalid_held_entry_is_rejected_not_fatal (P : Params) (h : Nat) (rates avgs : TMap) (e : TxEntry) (s : DB)
+    (hv : e.validAt P h = false) :
+    ∃ s', applyHeld P h rates avgs e s = .ok false s' ∧ s'.addrs = s.addrs := by
+  unfold applyHeld
+  rw [M.bind_run]
+  simp only [M.get_run, hv, Bool.not_false, Bool.or_true, if_true]
+  refine ⟨_, rfl, rfl⟩
+
 end Pegnet.C08
 
 #print axioms Pegnet.C08.block_application_returns
@@ -124,3 +161,6 @@ end Pegnet.C08
 #print axioms Pegnet.C08.resubmitted_pending_entry_applies
 #print axioms Pegnet.C08.recorded_entry_is_skipped
 #print axioms Pegnet.C08.empty_block_total
+#print axioms Pegnet.C08.invalid_entry_is_skipped
+#print axioms Pegnet.C08.all_invalid_entries_are_a_noop
+#print axioms Pegnet.C08.invalid_held_entry_is_rejected_not_fatal
